@@ -77,7 +77,7 @@ def main():
             else:
                 shutil.copy(s, d)
             copied.append(os.path.join(dst, os.path.basename(f)))
-        cmd = re.sub(r"cd\s+/tmp/mut/\w+", "cd " + wt, meta["demo_cmd"])
+        cmd = re.sub(r"cd\s+(/tmp/mut/\w+|<repo>)", "cd " + wt, meta["demo_cmd"])
         if "timeout" not in cmd:
             cmd = cmd.replace("go test ", "go test -timeout 300s ", 1)
         rc1, out1 = sh(cmd, cwd=wt, timeout=900)
